@@ -542,7 +542,7 @@ def check_time_average(run, pkg):
         # floor of a float quotient without tolerance: period = k * interval can come out as k - 1
         run.ob("R-TRUNC", fq, "window-length", False, "window length is floor(period/interval), exact multiples included",
                f"w = {sp.sstr(gw)}: a float quotient is truncated with no tolerance",
-               witness="period 0.3, interval 0.1: 0.3/0.1 = 2.9999999999999996 -> w = 2, property requires 3", loc=fi.loc())
+               witness="period 0.3, interval 0.1: 0.3/0.1 = 2.9999999999999996 -> w = 2, property requires 3", loc=fi.loc(), sound=True)
     else:
         tol_forms = []
         run.ob("R-TRUNC", fq, "window-length", None if tr.atoms or True else True, "window length is floor(period/interval), exact multiples included",
